@@ -254,7 +254,8 @@ Lemma give_loop_spec o blocks : forall sorted bi sps h stolen st sps' h' stolen'
 Proof.
   induction sorted as [|id r IH]; intros bi sps h stolen st sps' h' stolen' st' H Hnd.
   - cbn in H. apply ret_ok in H. destruct H as [H <-]. injection H as <- <- <-.
-    repeat split; auto; try (apply Forall2_refl; exact quota_only_refl); try apply heap_super_only_refl.
+    split; [reflexivity|]. split; [apply Forall2_refl; exact quota_only_refl|]. split; [apply heap_super_only_refl|].
+        split; [reflexivity|]. split; auto.
   - cbn [give_loop] in H. destruct (sp_find sps id) as [s|] eqn:F; [|discriminate].
     destruct (Z.gtb (sp_age s - sp_lastimp s) (o_dropoff o)); [exact (IH _ _ _ _ _ _ _ _ _ H Hnd)|].
     mbind H as acc' s1 H1 H2.
@@ -267,10 +268,12 @@ Proof.
                 super_le_quota sps' h')).
     { intros sps1 h1 stolen1 -> Hnd1. destruct (Z.leb stolen1 0).
       - apply ret_ok in H2. destruct H2 as [H2 <-]. injection H2 as <- <- <-.
-        repeat split; auto; try (apply Forall2_refl; exact quota_only_refl); try apply heap_super_only_refl.
+        split; [reflexivity|]. split; [apply Forall2_refl; exact quota_only_refl|]. split; [apply heap_super_only_refl|].
+        split; [reflexivity|]. split; auto.
       - exact (IH _ _ _ _ _ _ _ _ _ H2 Hnd1). }
     destruct H1 as [->|[k [c [stolen1 [Hk [Hle [-> [Hc ->]]]]]]]].
-    + destruct (Rest _ _ _ eq_refl Hnd) as [R1 [R2 [R3 [R4 [R5 R6]]]]]. repeat split; auto; try congruence.
+    + destruct (Rest _ _ _ eq_refl Hnd) as [R1 [R2 [R3 [R4 [R5 R6]]]]].
+      split; [assumption|]. split; [assumption|]. split; [assumption|]. split; [congruence|]. split; assumption.
     + destruct (grant_step sps h id s c k k Hnd F Hc) as [G1 [G2 [G3 G4]]].
       assert (Hnd1 : NoDup (map sp_id (sp_set sps id (fun s0 => sp_with_exp s0 (sp_exp s0 + k)))))
         by (rewrite (Forall2_quota_only_ids _ _ G2); exact Hnd).
